@@ -47,8 +47,10 @@ def run(prop, tier, seed):
     res = engine_r.Result(prop)
     res.check_divisors = spec.get("check_divisors", True)
     configs = props_r.configs_for(prop, tier, seed)
-    for (scenario, cfg) in configs:
+    for idx, (scenario, cfg) in enumerate(configs):
+        budget.start_config(len(configs) - idx)
         engine_r.explore(h, res, scenario, cfg, spec["prefixes"], budget, evidence.REPLAY_DIR)
+    budget.cfg_end = None
     # translator validation: the first configs are also executed natively on f64 at the shadow inputs and
     # every obligation must hold numerically (the Sym run and the f64 run execute the same source)
     nval = len(configs) if all(sc in ("stats", "relw_stats") for sc, _ in configs) else (3 if tier == "quick" else 8)
@@ -77,6 +79,13 @@ def run(prop, tier, seed):
         for (name, holds, detail) in d32["out"]["facts"]:
             if not holds and (any(name.startswith(p) for p in spec["prefixes"]) or name == "no_panic"):
                 engine_r.record_violation(h, res, scenario, dict(cfg, mode="f32"), d32, name, "[f32] " + str(detail), spec["prefixes"], evidence.REPLAY_DIR, inputs={}, native_confirm=False)
+        # quantities that are exact in every floating-point width (the stored threshold: |eps| as given, or the machine epsilon
+        # OF THE SCALAR TYPE) are compared exactly in f32 as well
+        for ob in d32["out"]["obligations"]:
+            if ob["name"] in engine_r.EXACT_NATIVE and any(ob["name"].startswith(p) for p in spec["prefixes"]):
+                for (label, l, r) in ob["eqs"]:
+                    if isinstance(l, (int, float)) and isinstance(r, (int, float)) and l != r:
+                        engine_r.record_violation(h, res, scenario, dict(cfg, mode="f32"), d32, ob["name"], f"[f32] {label}: {l!r} but expected {r!r}", spec["prefixes"], evidence.REPLAY_DIR, inputs={}, native_confirm=False)
     if getattr(h, "accessors", None) is not None and set(h.accessors) != set(h.ACCESSORS):
         res.skipped_accessors = sorted(set(h.ACCESSORS) - set(h.accessors))
     engine_r.vacuity_twins(h, res, prop, budget)
